@@ -107,7 +107,7 @@ def leaf_kinds(T, acc):
             leaf_kinds(b, acc)
     elif tag in ("newtype", "fwd"):
         leaf_kinds(T[2], acc)
-    elif tag == "utuple":
+    elif tag in ("utuple", "ustar"):
         for e in T[1]:
             leaf_kinds(e, acc)
         leaf_kinds(T[2], acc)
